@@ -115,4 +115,23 @@ def c08_mixed_stream(seed, records):
     return {"violates": False, "cases": cases}
 
 
-CALLS = {"c08_eval": c08_eval, "c08_select": c08_select, "c08_ctx": c08_ctx, "c08_helper": c08_helper, "c08_helper_regex": c08_helper_regex, "c08_mixed_stream": c08_mixed_stream}
+def c08_mixed(expr="r.pid == 5", engine="Selector"):
+    from flow.record import RecordDescriptor
+    from flow.record import selector as S
+
+    Old = RecordDescriptor("c08/event", [("string", "nm")])
+    New = RecordDescriptor("c08/event", [("string", "nm"), ("varint", "pid")])
+    Other = RecordDescriptor("c08/other", [("varint", "pid")])
+    recs = [Old(nm="x"), New(nm="x", pid=5), Old(nm="x"), Other(pid=5), New(nm="x", pid=5)]
+    s = getattr(S, engine)(expr)
+    out = []
+    for r in recs:
+        try:
+            out.append(bool(s.match(r)))
+        except Exception as e:
+            out.append("raise " + type(e).__name__)
+    want = [False, True, False, ("nm" not in expr), True]
+    return {"violates": out != want, "got": out, "expected": want}
+
+
+CALLS = {"c08_mixed": c08_mixed, "c08_eval": c08_eval, "c08_select": c08_select, "c08_ctx": c08_ctx, "c08_helper": c08_helper, "c08_helper_regex": c08_helper_regex, "c08_mixed_stream": c08_mixed_stream}
